@@ -12,7 +12,7 @@ use std::io::{Cursor, Write};
 
 const DEPTHS: [u32; 17] = [0, 1, 2, 3, 4, 7, 8, 9, 12, 16, 17, 24, 31, 32, 33, 64, u32::MAX];
 const CHANNELS: [u8; 12] = [0, 1, 2, 3, 4, 5, 6, 7, 8, 9, 128, 255];
-const RATES: [u32; 9] = [0, 1, 44100, 65535, 65536, 655350, (1 << 20) - 1, 1 << 20, u32::MAX];
+const RATES: [u32; 13] = [0, 1, 44100, 65535, 65536, 655350, 655360, 705600, 1000000, 1048570, (1 << 20) - 1, 1 << 20, u32::MAX];
 const BLOCKS: [u16; 6] = [0, 15, 16, 17, 4096, 65535];
 const LPCS: [Option<u8>; 8] = [None, Some(0), Some(1), Some(12), Some(31), Some(32), Some(33), Some(255)];
 const PARTS: [u32; 6] = [0, 1, 8, 15, 16, u32::MAX];
